@@ -45,7 +45,10 @@ fn clear_stamps(target: &str) {
 	let _ = std::fs::create_dir_all(target);
 	if let Ok(rd) = std::fs::read_dir(target) {
 		for e in rd.flatten() {
-			if e.file_name().to_string_lossy().starts_with(".pdbv-ready-") {
+			// stamps are unique per run; only clutter from runs long gone is removed (a concurrent
+			// run of the other tier must keep its stamp)
+			let old = e.metadata().ok().and_then(|m| m.modified().ok()).and_then(|t| t.elapsed().ok()).map_or(false, |d| d > Duration::from_secs(2 * 3600));
+			if old && e.file_name().to_string_lossy().starts_with(".pdbv-ready-") {
 				let _ = std::fs::remove_file(e.path());
 			}
 		}
